@@ -186,7 +186,18 @@ pub fn interesting_len(rng: &mut Rng, fmt: Fmt) -> usize {
 
 /// One variant of digits around a boundary point: returns (sig digits, e10, tag, relation to the boundary).
 pub fn variant(rng: &mut Rng, fmt: Fmt, b: &Dec, which: u64) -> (Vec<u8>, i64, &'static str, Rel) {
-    let (s, e10) = b.digits_exp();
+    let (s0, e10_0) = b.digits_exp();
+    // integers with trailing decimal zeros: write the zeros out for the variants that append digits,
+    // so that what is appended is an epsilon and not a multiple of 10^e10
+    let padded: Vec<u8>;
+    let (s, e10): (&[u8], i64) = if e10_0 > 0 && e10_0 <= 400 && (1..=3).contains(&which) {
+        let mut p = s0.to_vec();
+        p.resize(s0.len() + e10_0 as usize, b'0');
+        padded = p;
+        (&padded, 0)
+    } else {
+        (s0, e10_0)
+    };
     let n = s.len();
     debug_assert!(n > 0);
     match which {
@@ -218,7 +229,16 @@ pub fn variant(rng: &mut Rng, fmt: Fmt, b: &Dec, which: u64) -> (Vec<u8>, i64, &
             let tl = interesting_len(rng, fmt);
             let k = if tl > n && rng.chance(3, 4) { tl - n } else { rng.below(4) as usize };
             let mut v = s.to_vec();
-            v[n - 1] -= 1;
+            let mut i = n;
+            loop {
+                i -= 1;
+                if v[i] == b'0' {
+                    v[i] = b'9';
+                } else {
+                    v[i] -= 1;
+                    break;
+                }
+            }
             v.resize(n + k, b'9');
             let lz = v.iter().take_while(|&&c| c == b'0').count();
             let v: Vec<u8> = v[lz..].to_vec();
@@ -465,7 +485,31 @@ pub fn g3(rng: &mut Rng, fmt: Fmt) -> Case {
                 let _ = zi;
                 return Case { int: vec![], frac: vec![b'0'; zf], exp: e, tag: "ZERO" };
             }
-            1 | 2 => {
+            1 => {
+                // raw extreme: the *given* exponent (not the value's) is extreme, with digits on both sides of
+                // the point and around the 19/20-digit switch - every saturating adjustment in the digit
+                // accumulator is exercised in both directions
+                let ni = *rng.pick(&[0usize, 0, 1, 5, 18, 19, 20, 21, 25, 40]);
+                let nf = *rng.pick(&[0usize, 1, 5, 18, 19, 20, 21, 25, 40, 300]);
+                let mut int = rng.digits(ni);
+                if ni > 0 {
+                    int[0] = rng.nz_digit();
+                }
+                let mut frac = rng.digits(nf);
+                if nf > 0 && rng.chance(1, 2) {
+                    // leading zeros in the fraction
+                    let z = rng.range(0, nf as i64) as usize;
+                    for d in frac.iter_mut().take(z) {
+                        *d = b'0';
+                    }
+                }
+                if nf > 0 {
+                    frac[nf - 1] = rng.nz_digit();
+                }
+                let e = pick_exp(rng);
+                return Case { int, frac, exp: e, tag: "EXTREME_EXP" };
+            }
+            2 => {
                 // short digits with an extreme or boundary exponent
                 let n = rng.range(1, 25) as usize;
                 let mut sig = rng.digits(n);
